@@ -70,6 +70,15 @@ expressions
     `issubclass(e, T)` with `T` a builtin type name or a tuple of such names (tuple = any of them) through the tables
     `PureSpec.isinstance` / `.issubclass` (a type the table does not list: `Unsupported`); attribute chains through Optional
     records (`a.b.c` with `a.b` Optional → `Py.unwrapAttr`); templates of the spec may call other GENERATED functions
+  * pure functions, W28: keyword-only parameters (rendered as ordinary parameters; defaults must be constants); a function-local
+    `from m import Name` as a top-level statement (not rendered; the name may only be the class operand of a spec'd `isinstance`;
+    assumption "the import succeeds" listed in the header); a bare annotation `x: T` ONLY when the very next statement is an `if/else`
+    that assigns `x` on every path before anything else (→ `let mut x : Option _ := none`, a declaration whose initial value is never
+    read; Optional locals only); `isinstance(e, C)` for an OPTIONAL record `e` (→ `e.any …`: None is an instance of nothing) and for a
+    class `C` imported in the function, through `PureSpec.isinstance`; narrowing of a union-typed PARAMETER: in the `else` branch of
+    `if isinstance(p, C):` the reads of `p` are rendered through `PureSpec.narrow[(p, C)]` ("p, which is not a C": template + type;
+    parameters are never assigned; a comprehension / lambda re-binding `p` in that branch is `Unsupported`); `xs or ys` on two lists of
+    one element type, `ys` not raising (→ `if xs.isEmpty then ys else xs`)
   * several `def`s of one name in a class / module (typing.overload stubs): the LAST one is translated (Python's binding)
   * function headers: decorators `property`, `override`, `staticmethod` only; parameter defaults must be constants (they concern the
     callers; the rendering takes every parameter explicitly); annotations are never consulted
